@@ -121,7 +121,8 @@ def hashseed_pages(seeds=(0, 1, 2, 3, 4)):
     from bounded import site
     files = project_files()
     files["src/main.f90"] = files["src/main.f90"].replace("program driver\n", "program driver\n  use unknown_zeta\n  use unknown_alpha\n  use unknown_mid\n  use types\n  use par\n")
-    files["src/f0.f90"] = files["src/f0.f90"].replace("  implicit none\n", "  use types\n  use par\n  use unknown_b\n  use unknown_a\n  implicit none\n", 1)
+    files["src/f0.f90"] = files["src/f0.f90"].replace("  implicit none\n", "  use types\n  use par\n  use unknown_b\n  use unknown_a\n  implicit none\n  real :: work(3)\n  save :: work\n  target :: work\n"
+                                                      "  volatile :: work\n  asynchronous :: work\n", 1)
     meta = "src_dir: ./src\noutput_dir: ./doc\ngraph: false\nsearch: true\ncreation_date: fixed\n"
     ref = None
     for sd in seeds:
